@@ -28,6 +28,20 @@ namespace iora
 namespace network
 {
 
+namespace detail
+{
+// Longest wait the synchronous calls feed into clock arithmetic. A caller that wants "no timeout" passes
+// std::chrono::milliseconds::max(); `steady_clock::now() + timeout` (and wait_for's own now() + rel_time) then
+// overflows a signed 64-bit nanosecond count: undefined behaviour, and in practice a deadline that has wrapped
+// into the past, so the call reported Timeout at once instead of waiting. 100 years is "for ever" for every
+// caller and keeps steady_clock, system_clock and timespec arithmetic in range.
+inline std::chrono::milliseconds clampSyncTimeout(std::chrono::milliseconds timeout)
+{
+  constexpr std::chrono::milliseconds kMaxSyncWait{std::chrono::hours{24 * 365 * 100}};
+  return timeout > kMaxSyncWait ? kMaxSyncWait : timeout;
+}
+} // namespace detail
+
 // ══════════════════════════════════════════════════════════════════════════════
 // Transport::Impl — all internal state
 // ══════════════════════════════════════════════════════════════════════════════
@@ -860,6 +874,8 @@ inline ConnectResult Transport::connectSync(const std::string &host, std::uint16
     return _impl->engine->connect(host, port, tls);
   }
 
+  timeout = detail::clampSyncTimeout(timeout); // milliseconds::max() must not wrap wait_for's deadline
+
   // Acquire syncMutex BEFORE calling engine->connect(). This ensures the
   // I/O thread's onConnect callback (which acquires syncMutex) cannot fire
   // until we have registered in pendingConnects and entered cv.wait_for()
@@ -1055,7 +1071,7 @@ inline ReceiveResult Transport::receiveSync(SessionId sid, void *buffer, std::si
   // fixed deadline returns only on data/close/overflow/shuttingDown or timeout.
   // A past deadline returns immediately with the predicate's current value, so
   // there is no negative-duration and no infinite loop.
-  const auto deadline = std::chrono::steady_clock::now() + timeout;
+  const auto deadline = std::chrono::steady_clock::now() + detail::clampSyncTimeout(timeout);
   const bool signalled = buf->cv.wait_until(lk, deadline,
                                             [&buf, this]
                                             {
@@ -1379,6 +1395,7 @@ inline ConnectResult ITransport::connectSyncCancellable(
   const std::string &host, std::uint16_t port, CancellationToken &token, TlsMode tls,
   std::chrono::milliseconds timeout)
 {
+  timeout = detail::clampSyncTimeout(timeout); // milliseconds::max() must not wrap the deadline below
   if (token.isCancelled())
   {
     return ConnectResult::err(TransportErrorInfo{TransportError::Cancelled, "cancelled"});
@@ -1454,6 +1471,7 @@ inline ReceiveResult ITransport::receiveSyncCancellable(
   SessionId sid, void *buffer, std::size_t &len, CancellationToken &token,
   std::chrono::milliseconds timeout)
 {
+  timeout = detail::clampSyncTimeout(timeout); // milliseconds::max() must not wrap the deadline below
   if (token.isCancelled())
   {
     return ReceiveResult::err(TransportErrorInfo{TransportError::Cancelled, "cancelled"});
